@@ -41,14 +41,14 @@ Proof.
 Qed.
 
 Lemma entering_default_spin s ev s' b : entering_default sops s ev = Ok (s', Spin b) ->
-  b <> BIgnore /\ (b = BBell -> com s' = com s /\ dict s' = dict s /\ opts s' = opts s /\ nth s' = nth s).
+  (b = BIgnore -> s' = s) /\ (b = BBell -> com s' = com s /\ dict s' = dict s /\ opts s' = opts s /\ nth s' = nth s).
 Proof.
   intros H. unfold entering_default in H.
   assert (CI : forall s0 ch, commit_or_insert s0 ch = Ok (s', Spin b) -> b <> BIgnore /\ b <> BBell).
   { intros s0 ch H0. apply commit_or_insert_spin in H0 as [-> | ->]; split; discriminate. }
   assert (FIN : b <> BIgnore /\ b <> BBell ->
-                b <> BIgnore /\ (b = BBell -> com s' = com s /\ dict s' = dict s /\ opts s' = opts s /\ nth s' = nth s)).
-  { intros [A B]. split; [exact A | intros ->; contradiction]. }
+                (b = BIgnore -> s' = s) /\ (b = BBell -> com s' = com s /\ dict s' = dict s /\ opts s' = opts s /\ nth s' = nth s)).
+  { intros [A B]. split; [intros ->; contradiction | intros ->; contradiction]. }
   destruct (negb (o_english (opts s))).
   - destruct (N.eqb (kcode ev) kc_Grave && mods_none ev); [discriminate|].
     destruct (N.eqb (kcode ev) kc_Space).
@@ -77,7 +77,8 @@ Proof.
       destruct (negb (o_fullwidth (opts s))); [apply FIN; eapply CI; eassumption|].
       destruct (full_width_symbol_input (kunicode ev)); [apply FIN; eapply CI; eassumption | discriminate].
   - destruct (negb (o_fullwidth (opts s))); [apply FIN; eapply CI; eassumption|].
-    destruct (full_width_symbol_input (kunicode ev)); [apply FIN; eapply CI; eassumption | discriminate].
+    destruct (full_width_symbol_input (kunicode ev)); [apply FIN; eapply CI; eassumption|].
+    inv_ok H. split; [reflexivity | discriminate].
 Qed.
 
 Lemma start_selecting_common_spin s f s' b :
@@ -149,7 +150,7 @@ Proof.
   split_if H.
   { apply commit_or_insert_spin in H as [-> | ->]; apply ABS; auto. }
   destruct (entering_default_spin _ _ _ _ H) as (A & B).
-  split; [intros X; contradiction | intros X; now destruct (B X)].
+  split; [exact A | intros X; now destruct (B X)].
 Qed.
 
 (* ---- EnteringSyllable: never Ignore; Bell leaves the composition alone ---- *)
@@ -473,7 +474,7 @@ Proof.
       destruct (negb (o_fullwidth (opts s))); [eapply commit_or_insert_cb; eassumption|].
       destruct (full_width_symbol_input (kunicode ev)); [eapply commit_or_insert_cb; eassumption | discriminate].
   - destruct (negb (o_fullwidth (opts s))); [eapply commit_or_insert_cb; eassumption|].
-    destruct (full_width_symbol_input (kunicode ev)); [eapply commit_or_insert_cb; eassumption | discriminate].
+    destruct (full_width_symbol_input (kunicode ev)); [eapply commit_or_insert_cb; eassumption | inv_ok H; now right].
 Qed.
 
 Lemma learn_in_range_cb s a b s' ok : learn_in_range dops conv s a b = Ok (s', ok) -> commit_buf s' = commit_buf s.
